@@ -22,6 +22,7 @@ class Peer:
                 if direction == "down" and b"<DATAS>STATP" in data:
                     return [(latency + echo_delay, data)]
                 return [(0.0 if direction == "up" else latency, data)]
+        self.script, self.latency = script, latency
         self.sim = vloop.make_sim(os.path.join(SNAPDIR, snapshot) if not os.path.isabs(snapshot) else snapshot)
         self.commands = []          # decoded SPACK commands that reached the spa
         self.raw = []               # every datagram content that reached the spa (time, bytes)
@@ -69,6 +70,28 @@ class Peer:
                 target.value = "OFF" if cur != "OFF" else (on[0] if on else cur)
         finally:
             self.sim._send_structure_change = False
+
+    def spontaneous(self, tag, value):
+        """the spa changes one of its own values and reports it to its clients with a partial update (through the same network script)"""
+        acc = self.sim.structure.accessors.get(tag)
+        if acc is None:
+            return False
+        with vloop.quiet():
+            self.sim._send_structure_change = True
+            try:
+                acc.value = value
+            finally:
+                self.sim._send_structure_change = False
+        out = self.sim._socket._send_handlers
+        self.sim._socket._send_handlers = []
+        for h, dest in out:
+            data = h.send_bytes
+            for tr in self.loop.endpoints:
+                if tr.closed or tuple(tr.addr) != tuple(dest[:2]):
+                    continue
+                for dl, b in ([(self.latency, data)] if self.script is None else self.script("down", data)):
+                    self.loop.call_later(dl, lambda b=b, tr=tr: (not tr.closed) and tr.proto.datagram_received(b, vloop.SIMADDR))
+        return True
 
     def _net(self, latency, script):
         inner = vloop.sim_net(self.sim, self.loop, latency, script)
